@@ -79,9 +79,23 @@ class TrackingBackend:
     def _init_tracked(self):
         try:
             with open(self._get_state_path()) as state_file:
-                return json.load(state_file)
+                tracked_jobs = json.load(state_file)
         except FileNotFoundError:
-            return {}
+            tracked_jobs = {}
+
+        # Jobs accepted by an invocation that never got to save its state (it
+        # was killed, or interrupted while saving) are in the journal.
+        try:
+            with open(self._get_journal_path()) as journal_file:
+                for line in journal_file:
+                    try:
+                        target_name, job_id = json.loads(line)
+                    except ValueError:
+                        break  # incomplete last entry
+                    tracked_jobs[target_name] = job_id
+        except FileNotFoundError:
+            pass
+        return tracked_jobs
 
     @_job_states.default
     def _init_status(self):
@@ -92,6 +106,9 @@ class TrackingBackend:
             self.working_dir, ".gwf", f"{self.name}-backend-tracked.json"
         )
 
+    def _get_journal_path(self):
+        return self._get_state_path() + ".journal"
+
     def status(self, target):
         job_id = self._tracked_jobs.get(target.name)
         return self._job_states.get(job_id, BackendStatus.UNKNOWN)
@@ -101,6 +118,11 @@ class TrackingBackend:
         job_id = self.ops.submit_target(target, dependency_ids)
         self._tracked_jobs[target.name] = job_id
         self._job_states[job_id] = BackendStatus.SUBMITTED
+        # Record the job right away: the state file is only written when gwf
+        # exits, and a job the scheduler has accepted must not be forgotten if
+        # gwf is killed before that.
+        with open(self._get_journal_path(), "a") as journal_file:
+            journal_file.write(json.dumps([target.name, job_id]) + "\n")
 
     def cancel(self, target):
         try:
@@ -115,6 +137,10 @@ class TrackingBackend:
             self.ops.close()
         finally:
             dump_json_atomically(self._tracked_jobs, self._get_state_path())
+            try:
+                os.remove(self._get_journal_path())
+            except FileNotFoundError:
+                pass
 
     @property
     def target_defaults(self):
